@@ -490,3 +490,11 @@ func (d *vfDB) dbHash() uint64 {
 	}
 	return d.hash
 }
+
+func vfCloneRow(r vfRow) vfRow {
+	c := make(vfRow, len(r))
+	for k, v := range r {
+		c[k] = v
+	}
+	return c
+}
